@@ -7,7 +7,7 @@ from harness import core, py2lean, instantiate
 from harness.core import Outcome, f2b, b2f
 
 ID = "C16"
-LEAN_TARGETS = ["BeyondVerif.Props.C16", "BeyondVerif.Props.C16Helpers"]
+LEAN_TARGETS = ["BeyondVerif.Props.C16", "BeyondVerif.Props.C16Helpers", "BeyondVerif.Props.C16Seq", "BeyondVerif.Props.C16HelperSrc", "BeyondVerif.Props.C16Lin", "BeyondVerif.Witness.C16"]
 THEOREMS = [
     "BeyondVerif.C16.cw_zero",
     "BeyondVerif.C16.cw_solves_hill",
@@ -23,34 +23,236 @@ THEOREMS = [
     "BeyondVerif.C16.continuous_resumed",
     "BeyondVerif.C16.continuous_already_passed",
     "BeyondVerif.C16.continuous_after",
+    "BeyondVerif.C16.state_solves_hill_piecewise_thrust",
+    "BeyondVerif.C16.hillSol_initial",
+    "BeyondVerif.C16.impulse_term_jump",
+    "BeyondVerif.C16.burn_term_joins",
+    "BeyondVerif.C16.cwPropagateFixed_eq_hillSol",
+    "BeyondVerif.C16.propagate_eq_hillSol_partial",
+    "BeyondVerif.C16.noCut_of_outsideBurns",
+    "BeyondVerif.C16.noCut_of_chronoDisjoint",
+    "BeyondVerif.C16.propagate_backward_eq_hillSol_partial",
+    "BeyondVerif.C16.propagate_backward_within_burn",
+    "BeyondVerif.C16.propagate_tnw_is_permuted_qsw",
+    "BeyondVerif.C16W.impulse_inside_burn_violates",
+    "BeyondVerif.C16W.impulse_inside_burn_not_noCut",
+    "BeyondVerif.C16W.overlapping_burn_violates",
+    "BeyondVerif.C16W.backward_violates",
+    "BeyondVerif.C16W.fixed_sequencing_on_the_witnesses",
     "BeyondVerif.C16.coelliptic_drift",
     "BeyondVerif.C16.hohmann_moves",
     "BeyondVerif.C16.hohmann_continuous_moves",
     "BeyondVerif.C16.eccentric_boost_moves",
     "BeyondVerif.C16.tangential_boost_moves",
     "BeyondVerif.C16.vbar_linear_moves",
+    "BeyondVerif.C16.eccentric_boost_continuous_moves",
+    "BeyondVerif.C16.period_formula",
+    "BeyondVerif.C16.hohmann_distance_formula",
+    "BeyondVerif.C16.coelliptic_formula",
+    "BeyondVerif.C16.coelliptic_tnw",
+    "BeyondVerif.C16.hohmann_formula",
+    "BeyondVerif.C16.hohmann_continuous_formula",
+    "BeyondVerif.C16.hohmann_tnw",
+    "BeyondVerif.C16.eccentric_boost_formula",
+    "BeyondVerif.C16.eccentric_boost_continuous_formula",
+    "BeyondVerif.C16.eccentric_boost_tnw",
+    "BeyondVerif.C16.tangential_boost_formula",
+    "BeyondVerif.C16.tangential_boost_tnw",
+    "BeyondVerif.C16.vbar_linear_formula",
+    "BeyondVerif.C16.vbar_linear_tnw",
+    "BeyondVerif.C16.hohmann_end_to_end",
+    "BeyondVerif.C16.hohmann_continuous_end_to_end",
+    "BeyondVerif.C16.eccentric_boost_end_to_end",
+    "BeyondVerif.C16.eccentric_boost_continuous_end_to_end",
+    "BeyondVerif.C16.tangential_boost_end_to_end",
+    "BeyondVerif.C16.vbar_linear_end_to_end",
+    "BeyondVerif.C16.hohmann_end_to_end_tnw",
+    "BeyondVerif.C16.eccentric_boost_end_to_end_tnw",
+    "BeyondVerif.C16.tangential_boost_end_to_end_tnw",
+    "BeyondVerif.C16.vbar_linear_end_to_end_tnw",
+    "BeyondVerif.C16.relAcc_zero",
+    "BeyondVerif.C16.relAcc_linearisation",
+    "BeyondVerif.C16.hillRhs_position_block",
 ]
 LEVEL_TEXT = ("Lean theorems over R about the evolution and acceleration matrices translated from cw.py on every run: the propagated state has, "
               "component by component, the derivative prescribed by Hill's equations with constant thrust (HasDerivAt, all t, all n != 0), "
-              "composition and inverse hold exactly, TNW is the axis permutation of QSW, an impulse adds exactly dv once at its date. "
-              "Maneuver sequencing is hand-modelled and tied by a differential correspondence run against ClohessyWiltshire.propagate.")
-LEVEL_NOTE = ("R -> double gap covered only by tolerance-bounded correspondence; second-order agreement with nonlinear relative motion is not covered "
-              "by any theorem; Lean kernel + propext/Classical.choice/Quot.sound; py2lean translator and harness trusted")
-TECHNIQUE = "Lean 4 proof (HasDerivAt / ring identities) over matrices regenerated from the Python AST; differential correspondence for sequencing"
+              "composition and inverse hold exactly, TNW is the axis permutation of QSW (single step and the whole of propagate with any maneuver list), "
+              "an impulse adds exactly dv once at its date. Maneuver sequencing: the reference solution hillSol (one term per maneuver, order-independent, "
+              "defined before and after the orbit's date) is proved to solve Hill's equations forced by the SUM of the active thrusts with the jumps at the "
+              "impulse dates, for every list (any order, overlapping or not) and every date (state_solves_hill_piecewise_thrust, hillSol_initial, "
+              "impulse_term_jump, burn_term_joins); the sequencing of the current code equals it exactly under NoCut (forwards) / Clear (backwards), "
+              "kernel-checked counter-witnesses outside; the sequencing of the proposed fix equals it unconditionally. The sequencing model is hand-written and "
+              "tied by a differential correspondence run against ClohessyWiltshire.propagate (first and second leg). The rendezvous helper is translated from "
+              "cwhelper.py on every run: its maneuvers are proved to be the ones the outcome theorems start from, its TNW results the permutation of the QSW ones, "
+              "and each helper's own list is run end to end through the model of propagate.")
+LEVEL_NOTE = ("R -> double gap covered only by tolerance-bounded correspondence; uniqueness of the solution of the linear ODE is not formalised (hillSol is shown to BE a "
+              "piecewise solution with the right initial value, jumps and joins; that there is no other is the classical Picard-Lindelof fact); second-order agreement with "
+              "nonlinear relative motion is not covered by any theorem; Lean kernel + propext/Classical.choice/Quot.sound; py2lean translator, the cwhelper translator of "
+              "this module and the harness are trusted")
+TECHNIQUE = "Lean 4 proof (HasDerivAt / ring identities / induction over maneuver lists) over matrices and helper formulas regenerated from the Python AST; differential correspondence for sequencing; independent numerical integration of Hill's equations as oracle"
 TRUSTED = [
     "harness/py2lean.py: translates the evol_mat / accel_mat literals of ClohessyWiltshire._propagate into Generated/CWMat{F,R}.lean on every run",
-    "lean/templates/CW.tpl (hand-written maneuver sequencing and TNW rotation), tied by the correspondence run",
+    "harness/props/C16.py HelperTr: translates the method bodies of beyond/utils/cwhelper.py into Generated/CWHelper{F,R}.lean on every run (ImpulsiveMan / ContinuousMan constructor semantics quoted from man.py: start = date, stop = start + duration, accel = dv / duration); tied by the correspondence run helper-translated",
+    "lean/templates/CW.tpl (hand-written maneuver sequencing cwPropagate, TNW rotation, reference solution hillSol), tied by the correspondence run (cw, cw0 second leg; cwref / cwfix against the independent integration)",
     "numpy / libm double arithmetic vs R: tolerance 1e-9 relative",
 ]
 ASSUMPTIONS = ["maneuvers are given in the frame of the orbit (frame=None); QSW/TNW-tagged maneuvers belong to C17",
-               "theorems are over R; the implementation computes in IEEE doubles"]
-NOT_COVERED = ["second-order agreement with the difference of two Keplerian orbits (asymptotic statement about the true dynamics): oracle only"]
-OPEN = ["the helper theorems take the helper's delta-v / acceleration formulas as quoted from cwhelper.py; that the real helper returns exactly those values is checked by the correspondence run (helper-formulas), not by translation"]
-RULE = ("correspondence: random (n from radii LEO..GEO, |t| <= 2 periods, relative states up to km and m/s, 0-4 maneuvers, both orientations) through "
-        "ClohessyWiltshire._propagate/propagate vs the compiled Lean model; non-trivial = t != 0; distinct = distinct request line. "
-        "oracle: finite-difference Hill residual, composition, impulse jump, TNW permutation, helper outcomes on the real API")
+               "theorems are over R; the implementation computes in IEEE doubles",
+               "maneuver vectors have three components (WF), states six"]
+NOT_COVERED = ["second-order agreement with the difference of two Keplerian orbits: the theorem relAcc_linearisation shows that Hill's right-hand side is the directional derivative, in every "
+               "direction, of the exact relative two-body acceleration at the target (the target being an equilibrium, relAcc_zero); the Frechet form with an explicit O(sep^2) remainder and the passage "
+               "from the vector field to its solutions are not formalised - oracle second-order-agreement (real propagator vs RK4 integration of the exact relative dynamics, fitted exponent >= 1.8)"]
+OPEN = ["uniqueness of the piecewise solution of Hill's equations (so that hillSol is THE solution) is not formalised",
+        "current code: state_solves_hill_piecewise_thrust holds only under NoCut / Clear (open findings C16-return-inside-burn-drops-later-maneuvers, C16-backward-ignores-past-maneuvers); "
+        "the unconditional theorem is proved for the sequencing of proposed_fixes/C16-maneuver-superposition.diff (cwPropagateFixed)"]
+RULE = ("correspondence: random (n from radii LEO..GEO, |t| <= 2 periods, relative states up to km and m/s, 0-5 maneuvers, both orientations) through "
+        "ClohessyWiltshire._propagate/propagate vs the compiled Lean model; maneuver lists of every shape (overlapping / nested / back-to-back burns, impulses inside and at the ends "
+        "of burns, non-chronological, dated before the orbit), dates before / at / 1 ms beside / inside / after every maneuver and before the orbit's date, second leg from the returned "
+        "orbit; hillSol and the fixed sequencing vs an independent matrix-exponential integration; CWHelper vs its translation; non-trivial = t != 0; distinct = distinct request line. "
+        "oracle: finite-difference Hill residual, composition, impulse jump, TNW permutation, propagate vs the independent integration of Hill's equations with the piecewise-constant sum "
+        "of the active thrusts (one leg, second leg forwards and backwards, superposition), discrepancy with the exact relative two-body motion at three separations (exponent), helper outcomes on the real API")
 
 CW_PY = os.path.join(core.REPO, "beyond", "propagators", "cw.py")
+
+
+CWH_PY = os.path.join(core.REPO, "beyond", "utils", "cwhelper.py")
+
+
+class HelperTr:
+    """The method bodies of beyond/utils/cwhelper.py -> Lean.  Scalars go through py2lean.Tr (`self.n` -> `n`, `self.period` and
+    `timedelta(seconds=e)` -> seconds, `np.sign` -> `signR`); 3-vectors are lists: `self._mat3 @ [..]` -> `matVec m3 [..]`, numpy
+    broadcasting `v * s` / `s * v` / `v / s` -> `vmuls` / `smulv` / `vdivs`, `-v` -> `vneg`; `ImpulsiveMan(date, dv)` -> `Man.imp`,
+    `ContinuousMan(date, duration, dv= | accel=)` -> `Man.cont date (date + duration) …` (man.py: start = date, stop = start + duration,
+    accel = dv / duration.total_seconds()); `Orbit(vec, …)` -> the vector.  Anything else raises Untranslatable."""
+
+    def __init__(self):
+        self.vec = set()
+        self.tr = py2lean.Tr(consts={"self.n": "n", "self.period": "(helperPeriod n)"},
+                             funcs={"sign": "signR", "self.coelliptic_velocity": "helperCoellipticVelocity n"})
+
+    def scalar(self, e):
+        class Strip(ast.NodeTransformer):
+            def visit_Call(self, node):
+                self.generic_visit(node)
+                if isinstance(node.func, ast.Name) and node.func.id == "timedelta" and not node.args and len(node.keywords) == 1 \
+                        and node.keywords[0].arg == "seconds":
+                    return node.keywords[0].value
+                return node
+        import copy
+        return self.tr.expr(Strip().visit(copy.deepcopy(e)))
+
+    def vector(self, e):
+        """Lean text of a vector-valued expression, or None when the expression is a scalar"""
+        if isinstance(e, ast.Name):
+            return py2lean.lname(e.id) if e.id in self.vec else None
+        if isinstance(e, ast.BinOp) and isinstance(e.op, ast.MatMult):
+            m = self.tr.dotted(e.left)
+            if m not in ("self._mat3", "self._mat6") or not isinstance(e.right, (ast.List, ast.Tuple)):
+                raise py2lean.Untranslatable("matrix product " + ast.unparse(e))
+            return f"(matVec {'m3' if m.endswith('3') else 'm6'} [" + ", ".join(self.scalar(x) for x in e.right.elts) + "])"
+        if isinstance(e, ast.UnaryOp) and isinstance(e.op, ast.USub):
+            v = self.vector(e.operand)
+            return None if v is None else f"(vneg {v})"
+        if isinstance(e, ast.BinOp) and isinstance(e.op, (ast.Mult, ast.Div)):
+            l, r = self.vector(e.left), self.vector(e.right)
+            if l is not None and r is None:
+                return f"({'vmuls' if isinstance(e.op, ast.Mult) else 'vdivs'} {l} {self.scalar(e.right)})"
+            if l is None and r is not None and isinstance(e.op, ast.Mult):
+                return f"(smulv {self.scalar(e.left)} {r})"
+            if l is not None or r is not None:
+                raise py2lean.Untranslatable("vector operation " + ast.unparse(e))
+        return None
+
+    def value(self, e):
+        """maneuver constructors, tuples / lists of them, an Orbit, a vector or a scalar"""
+        if isinstance(e, (ast.Tuple, ast.List)) and e.elts and all(isinstance(x, ast.Call) for x in e.elts):
+            return "[" + ", ".join(self.value(x)[0] for x in e.elts) + "]", "mans"
+        if isinstance(e, ast.Call) and isinstance(e.func, ast.Name) and e.func.id == "ImpulsiveMan":
+            if len(e.args) != 2 or e.keywords:
+                raise py2lean.Untranslatable("ImpulsiveMan arguments")
+            return f"Man.imp {self.scalar(e.args[0])} {self.need_vec(e.args[1])}", "man"
+        if isinstance(e, ast.Call) and isinstance(e.func, ast.Name) and e.func.id == "ContinuousMan":
+            if len(e.args) != 2 or len(e.keywords) != 1 or e.keywords[0].arg not in ("dv", "accel"):
+                raise py2lean.Untranslatable("ContinuousMan arguments")
+            d, dur, v = self.scalar(e.args[0]), self.scalar(e.args[1]), self.need_vec(e.keywords[0].value)
+            acc = v if e.keywords[0].arg == "accel" else f"(vdivs {v} {dur})"
+            return f"Man.cont {d} ({d} + {dur}) {acc}", "man"
+        if isinstance(e, ast.Call) and isinstance(e.func, ast.Name) and e.func.id == "Orbit":
+            return self.need_vec(e.args[0]), "vec"
+        if isinstance(e, ast.IfExp):
+            a, ta = self.value(e.body)
+            b, tb = self.value(e.orelse)
+            if ta != tb:
+                raise py2lean.Untranslatable("conditional of two kinds")
+            return f"(if {self.scalar(e.test)} then {a} else {b})", ta
+        v = self.vector(e)
+        if v is not None:
+            return v, "vec"
+        return self.scalar(e), "scalar"
+
+    def need_vec(self, e):
+        v = self.vector(e)
+        if v is None:
+            raise py2lean.Untranslatable("vector expected: " + ast.unparse(e))
+        return v
+
+    def body(self, stmts):
+        lines = []
+        kinds = {}
+        for s in stmts:
+            if isinstance(s, ast.Expr) and isinstance(s.value, ast.Constant):
+                continue
+            if isinstance(s, ast.Assign) and len(s.targets) == 1 and isinstance(s.targets[0], ast.Name):
+                txt, kind = self.value(s.value)
+                name = s.targets[0].id
+                (self.vec.add if kind == "vec" else self.vec.discard)(name)
+                kinds[name] = kind
+                lines.append(f"let {py2lean.lname(name)} := {txt}")
+            elif isinstance(s, ast.If) and len(s.body) == 1 and len(s.orelse) == 1 and all(
+                    isinstance(b, ast.Assign) and len(b.targets) == 1 and isinstance(b.targets[0], ast.Name) for b in (s.body[0], s.orelse[0])) \
+                    and s.body[0].targets[0].id == s.orelse[0].targets[0].id:
+                name = s.body[0].targets[0].id
+                a, ka = self.value(s.body[0].value)
+                b, kb = self.value(s.orelse[0].value)
+                if ka != kb:
+                    raise py2lean.Untranslatable("branches of two kinds")
+                kinds[name] = ka
+                lines.append(f"let {py2lean.lname(name)} := if {self.scalar(s.test)} then {a} else {b}")
+            elif isinstance(s, ast.Return) and s.value is not None:
+                if isinstance(s.value, ast.Name) and s.value.id in kinds:
+                    lines.append(py2lean.lname(s.value.id))
+                else:
+                    lines.append(self.value(s.value)[0])
+                return "\n".join("  " + l for l in lines)
+            else:
+                raise py2lean.Untranslatable(f"cwhelper statement {ast.unparse(s)[:60]}")
+        raise py2lean.Untranslatable("no return")
+
+
+# lean name, python method, binders (Lean), result type
+HELPERS = [
+    ("helperPeriod", "period", "(n : R)", "R"),
+    ("helperCoellipticVelocity", "coelliptic_velocity", "(n radial : R)", "R"),
+    ("helperCoelliptic", "coelliptic", "(m6 : List (List R)) (n date radial tangential : R)", "List R"),
+    ("helperHohmannDistance", "hohmann_distance", "(radial : R) (continuous : Bool)", "R"),
+    ("helperHohmann", "hohmann", "(m3 : List (List R)) (n radial date : R) (continuous : Bool)", "List Man"),
+    ("helperEccentricBoost", "eccentric_boost", "(m3 : List (List R)) (n tangential date : R) (continuous : Bool)", "List Man"),
+    ("helperTangentialBoost", "tangential_boost", "(m3 : List (List R)) (n tangential date : R)", "List Man"),
+    ("helperVbarLinear", "vbar_linear", "(m3 : List (List R)) (n tangential date dv : R)", "List Man"),
+]
+
+
+def translate_helpers():
+    tree = ast.parse(open(CWH_PY).read())
+    out = []
+    for lean, meth, binders, ty in HELPERS:
+        fn = py2lean.find_function(tree, "CWHelper." + meth)
+        params = [a.arg for a in fn.args.args[1:]]
+        declared = binders.replace("(", " ").replace(")", " ").replace(":", " ").split()
+        if not all(p in declared for p in params):
+            raise py2lean.Untranslatable(f"CWHelper.{meth}: parameters {params} changed")
+        out.append(f"/-- `CWHelper.{meth}` -/\ndef {lean} {binders} : {ty} :=\n{HelperTr().body(fn.body)}\n")
+    return "\n".join(out)
 
 
 def extract(ctx):
@@ -58,12 +260,13 @@ def extract(ctx):
                                    stop_before=lambda s: isinstance(s, ast.If) and "orientation" in ast.dump(s.test))
     ch = py2lean.instantiate(core.LEAN, "CWMat", body, "beyond/propagators/cw.py")
     ch += instantiate.main()
+    ch += py2lean.instantiate(core.LEAN, "CWHelper", translate_helpers(), "beyond/utils/cwhelper.py", imports=["Model.CW"])
     return ch
 
 
 # ---------------------------------------------------------------- real code adapters
 
-def make(ori, sma, x, mans=()):
+def make(ori, sma, x, mans=(), t0=0.0):
     from beyond.orbits import Orbit
     from beyond.dates import Date, timedelta
     from beyond.propagators.cw import ClohessyWiltshire
@@ -72,7 +275,7 @@ def make(ori, sma, x, mans=()):
     hill = HillFrame(orientation=ori)
     prop = ClohessyWiltshire(sma, frame=hill)
     d0 = Date(2020, 5, 24)
-    orb = Orbit(list(x), d0, "cartesian", "Hill", prop)
+    orb = Orbit(list(x), d0 + timedelta(seconds=t0), "cartesian", "Hill", prop)
     ms = []
     for m in mans:
         if m[0] == "i":
@@ -179,12 +382,100 @@ def correspondence(ctx):
         meta.append(("propagate", list(map(float, real)), sp, sp * n + 2.0, {"ori": ori, "sma": sma, "t": t, "x": x, "mans": mans}))
         napplied = sum(1 for m in mans if t >= m[1] > 0)
         out.count(key=reqs[-1], nontrivial=t != 0, kind="propagate-" + ori, mans=len(mans), applied=napplied, chrono=chrono, edge=edge)
+    # maneuver lists of every shape (overlapping burns, impulses inside burns, non-chronological, dated before the orbit), dates at /
+    # beside / inside / after every maneuver and before the orbit's date; a second leg from the returned orbit (orbit date t0 != 0);
+    # and the Lean reference solution `hillSol` (what the sequencing theorems compare `cwPropagate` with) against the independent integration
+    for _ in range(ctx.n(250, 6000)):
+        sma, period, x, _t = gen_case(rng)
+        ori = rng.choice(["QSW", "TNW"])
+        kind, mans = gen_sequence(rng, period)
+        orb, prop, d0 = make(ori, sma, x, mans)
+        n = float(prop.n)
+        dates = interesting_dates(rng, mans, period)
+        t = rng.choice(dates)
+        real = orb.propagate(timedelta(seconds=t))
+        reqs.append(" ".join(["cw", "1" if ori == "TNW" else "0", f2b(n), f2b(t)] + [f2b(v) for v in x] + man_tokens(mans)))
+        sp, sv = seq_scale(x, mans, 0.0, t)
+        meta.append(("propagate", list(map(float, real)), sp, sp * n + sv, {"ori": ori, "sma": sma, "t": t, "x": x, "mans": mans}))
+        out.count(key=reqs[-1], nontrivial=t != 0, kind="propagate-seq-" + ori, branch=classify(mans, 0.0, t), shape=shape(mans), scenario=kind)
+        t1, t2 = rng.sample(dates, 2)
+        if t1 < 0:
+            t1, t2 = t2, t1
+        if t1 > 0:
+            mid = orb.propagate(timedelta(seconds=t1))
+            xm = [float(v) for v in mid]
+            real2 = mid.propagate(timedelta(seconds=q(t2 - t1)))
+            reqs.append(" ".join(["cw0", "1" if ori == "TNW" else "0", f2b(n), f2b(t2), f2b(t1)] + [f2b(v) for v in xm] + man_tokens(mans)))
+            sp, sv = seq_scale(xm, mans, t1, t2)
+            meta.append(("propagate-second-leg", list(map(float, real2)), sp, sp * n + sv, {"ori": ori, "sma": sma, "t0": t1, "t": t2, "x": xm, "mans": mans}))
+            out.count(key=reqs[-1], kind="second-leg-" + ori, branch=classify(mans, t1, t2), shape=shape(mans), scenario=kind)
+        t0r = rng.choice([0.0, 0.0, rng.choice(dates)])
+        tr = rng.choice(dates)
+        ref = hill_reference(n, x, mans, t0r, tr)
+        reqs.append(" ".join(["cwref", f2b(n), f2b(tr), f2b(t0r)] + [f2b(v) for v in x] + man_tokens(mans)))
+        sp, sv = seq_scale(x, mans, t0r, tr)
+        meta.append(("spec-reference", list(map(float, ref)), 10 * sp, 10 * (sp * n + sv), {"sma": sma, "t0": t0r, "t": tr, "x": x, "mans": mans}))
+        out.count(key=reqs[-1], kind="spec-reference", direction="backward" if tr < t0r else "forward", shape=shape(mans))
+        reqs.append(" ".join(["cwfix", f2b(n), f2b(tr), f2b(t0r)] + [f2b(v) for v in x] + man_tokens(mans)))
+        meta.append(("fixed-sequencing-reference", list(map(float, ref)), 10 * sp, 10 * (sp * n + sv), {"sma": sma, "t0": t0r, "t": tr, "x": x, "mans": mans}))
+        out.count(key=reqs[-1], kind="fixed-sequencing-reference", direction="backward" if tr < t0r else "forward", shape=shape(mans))
     helper_formulas(out, rng, ctx.n(40, 400))
+    helper_translated(out, rng, ctx.n(40, 400))
     replies = core.Driver().run(reqs)
     for req, (kind, real, sp, sv, inp), rep in zip(reqs, meta, replies):
         compare(out, kind, req, real, rep, sp, sv, inp)
         out.sample({"request": req[:120] + "…", "impl": real, "model": [b2f(s) for s in rep.split()] if rep[0].isdigit() else rep}, limit=2)
     return out
+
+
+def flat_mans(mans, d0):
+    from beyond.orbits.man import ImpulsiveMan
+    r = []
+    for m in mans:
+        if isinstance(m, ImpulsiveMan):
+            r += [0.0, (m.date - d0).total_seconds()] + [float(v) for v in m._dv]
+        else:
+            r += [1.0, (m.start - d0).total_seconds(), (m.stop - d0).total_seconds()] + [float(v) for v in m._accel]
+    return r
+
+
+def helper_translated(out, rng, N):
+    """the maneuvers / states returned by the real CWHelper against the compiled translation of cwhelper.py (Generated/CWHelperF.lean,
+    the definitions the helper theorems of Props/C16HelperSrc.lean are about), both orientations, both signs of every distance"""
+    from beyond.dates import timedelta
+    from beyond.utils.cwhelper import CWHelper
+    reqs, meta = [], []
+    for _ in range(N):
+        ori = rng.choice(["QSW", "TNW"])
+        sma = rng.choice([6.7e6, 7.0e6, 2.66e7, 4.2164e7]) * rng.uniform(0.99, 1.01)
+        orb0, prop, d0 = make(ori, sma, [0] * 6)
+        hp = CWHelper(prop)
+        n = float(prop.n)
+        r = rng.uniform(-3000, 3000)
+        tg = rng.choice([-1, 1]) * rng.uniform(1, 3000)
+        v = rng.uniform(0.01, 1.0)
+        ds = q(rng.uniform(0, 5000))
+        date = d0 + timedelta(seconds=ds)
+        tnw = "1" if ori == "TNW" else "0"
+        cases = [
+            ("coelliptic", [n, ds, r, tg], [float(x) for x in hp.coelliptic(date, r, tg)] + [hp.period.total_seconds(), float(hp.hohmann_distance(r)), float(hp.hohmann_distance(r, continuous=True))]),
+            ("hohmann", [n, r, ds, 0.0], flat_mans(hp.hohmann(r, date), d0)),
+            ("hohmann", [n, r, ds, 1.0], flat_mans(hp.hohmann(r, date, continuous=True), d0)),
+            ("eccentric", [n, tg, ds, 0.0], flat_mans(hp.eccentric_boost(tg, date), d0)),
+            ("eccentric", [n, tg, ds, 1.0], flat_mans(hp.eccentric_boost(tg, date, continuous=True), d0)),
+            ("tangential", [n, tg, ds, 0.0], flat_mans(hp.tangential_boost(tg, date), d0)),
+            ("vbar", [n, tg, ds, v], flat_mans(hp.vbar_linear(tg, date, v), d0)),
+        ]
+        for which, args, real in cases:
+            reqs.append(" ".join(["helper", tnw, which] + [f2b(a) for a in args]))
+            meta.append((which, ori, args, real))
+            out.count(key=reqs[-1], kind=f"helper-translated-{which}-{ori}", sign="neg" if args[1] < 0 else "pos")
+    for req, (which, ori, args, real), rep in zip(reqs, meta, core.Driver().run(reqs)):
+        model = [b2f(t) for t in rep.split()] if rep and rep[0].isdigit() else None
+        # dates and durations go through timedelta (rounded to the microsecond): 2e-6 s absolute on every entry is below any physical meaning
+        if model is None or len(model) != len(real) or not all(abs(a - b) <= 1e-9 * max(abs(a), abs(b)) + 2e-6 * (1.0 if abs(b) > 1.0 else 1e-6) for a, b in zip(real, model)):
+            out.fail("helper-translated-" + which, "CWHelper returns something else than the translation of cwhelper.py the helper theorems are proved about",
+                     {"helper": which, "ori": ori, "args": args}, observed=real, expected=model if model is not None else rep)
 
 
 def helper_formulas(out, rng, N):
@@ -322,10 +613,314 @@ def oracle(ctx, widened):
         if not np.all(np.abs(d - rhs) <= (1e-5 * sc2 * n + 1e-9) * np.array([1, 1, 1, n, n, n]) * 10 + 1e-8):
             out.fail("hill-residual-thrust", "state during a continuous maneuver violates the forced Hill equations",
                      {"sma": sma, "t": tq, "x": x, "man": ["c", ts, te, acc]}, observed=list(map(float, d)), expected=list(map(float, rhs)))
+    piecewise(out, rng, 600 if (widened or ctx.thorough) else 90)
+    second_order(out, rng, 40 if (widened or ctx.thorough) else 6)
     helpers(out, rng, 60 if (widened or ctx.thorough) else 12)
     vbar(out, rng, 40 if (widened or ctx.thorough) else 8)
     out.sample({"checks": "hill residual (free, thrust), compose, tnw permutation, impulse jump, compose across impulse, CWHelper outcomes"})
     return out
+
+
+# ---------------------------------------------------------------- independent reference: Hill's equations, piecewise-constant thrust
+
+def _expm(M):
+    """matrix exponential by scaling and squaring of the Taylor series (no closed form, no scipy)"""
+    import numpy as np
+    nrm = float(np.abs(M).sum(axis=1).max())
+    k = max(0, int(math.ceil(math.log2(nrm / 0.25)))) if nrm > 0.25 else 0
+    A = M / (2.0 ** k)
+    E = np.eye(len(M))
+    T = np.eye(len(M))
+    for j in range(1, 22):
+        T = T @ A / j
+        E = E + T
+    for _ in range(k):
+        E = E @ E
+    return E
+
+
+def hill_flow(n, dt, s, acc):
+    """exact flow of Hill's equations with the constant acceleration `acc` over `dt` seconds (dt < 0: backwards), integrated as
+    exp of the augmented system matrix in the dimensionless variables (tau = n t, v/n, a/n^2) — shares nothing with cw.py"""
+    import numpy as np
+    if dt == 0:
+        return np.array(s, dtype=float)
+    M = np.zeros((7, 7))
+    M[0, 3] = M[1, 4] = M[2, 5] = 1.0
+    M[3, 0] = 3.0
+    M[5, 2] = -1.0
+    M[3, 4] = 2.0
+    M[4, 3] = -2.0
+    M[3:6, 6] = np.array(acc, dtype=float) / (n * n)
+    y = np.concatenate([np.array(s[:3], dtype=float), np.array(s[3:], dtype=float) / n, [1.0]])
+    y = _expm(M * (n * dt)) @ y
+    return np.concatenate([y[:3], y[3:6] * n])
+
+
+def hill_reference(n, x0, mans, t0, t):
+    """state at date t of THE solution of Hill's equations through (t0, x0): thrust = sum of the burns active at each instant
+    (a burn is active on [ts, te)), velocity jump dv at every impulse date (the state AT tm contains the jump); t < t0: the
+    maneuvers between t and t0 are undone"""
+    import numpy as np
+    s = np.array(x0, dtype=float)
+    if t == t0:
+        return s
+    lo, hi = min(t0, t), max(t0, t)
+    cuts = {t0, t}
+    for m in mans:
+        for c in ((m[1],) if m[0] == "i" else (m[1], m[2])):
+            if lo < c < hi:
+                cuts.add(c)
+    fwd = t > t0
+    cuts = sorted(cuts, reverse=not fwd)
+
+    def dv_at(c):
+        return sum((np.array(m[2], dtype=float) for m in mans if m[0] == "i" and m[1] == c), np.zeros(3))
+    if not fwd:
+        s[3:] -= dv_at(t0)              # an impulse dated exactly t0 is part of x0: going back, it is undone first
+    for a, b in zip(cuts[:-1], cuts[1:]):
+        mid = 0.5 * (a + b)
+        acc = sum((np.array(m[3], dtype=float) for m in mans if m[0] == "c" and m[1] <= mid < m[2]), np.zeros(3))
+        s = hill_flow(n, b - a, s, acc)
+        if fwd:
+            s[3:] += dv_at(b)           # includes b == t (tm <= t)
+        elif b != t:
+            s[3:] -= dv_at(b)           # t < tm: undone; an impulse dated exactly t stays
+    return s
+
+
+def man_active(m, t0, t):
+    """does propagate(t) of an orbit dated t0 have to account for maneuver m (true solution)"""
+    if m[0] == "i":
+        return (t0 < m[1] <= t) or (t < m[1] <= t0)
+    return (m[2] > t0 and t > m[1]) if t >= t0 else (m[1] < t0 and m[2] > t)
+
+
+def classify(mans, t0, t):
+    """call-site description of a (list, orbit date, target date) triple: which branch sequence of propagate() it takes.
+    The two open findings are exactly the first two classes."""
+    if t >= t0:
+        for i, m in enumerate(mans):
+            if m[0] == "c" and m[2] > t0 and t >= m[1] and m[1] <= t < m[2]:
+                # propagate() returns from inside the loop here
+                if any(man_active(mm, t0, t) for mm in mans[i + 1:]):
+                    return "date-inside-burn-skips-later-listed-maneuver"
+                return "date-inside-burn"
+        return "forward-outside-burns"
+    if any(man_active(m, t0, t) and not (m[0] == "c" and m[1] <= t and m[2] > t0) for m in mans) or \
+            sum(1 for m in mans if m[0] == "c" and m[1] <= t and m[2] > t0) > 1:
+        return "backward-across-maneuver"
+    return "backward-clear"
+
+
+def shape(mans):
+    """structure of a maneuver list: overlapping burns / impulse inside a burn / non-chronological"""
+    tags = []
+    burns = [m for m in mans if m[0] == "c"]
+    if any(a is not b and a[1] < b[2] and b[1] < a[2] for a in burns for b in burns):
+        tags.append("overlap")
+    if any(m[0] == "i" and b[1] <= m[1] <= b[2] for m in mans for b in burns):
+        tags.append("imp-in-burn")
+    st = [m[1] for m in mans]
+    if st != sorted(st):
+        tags.append("nonchrono")
+    return "+".join(tags) or "plain"
+
+
+def gen_sequence(rng, period):
+    """maneuver lists of every shape: overlapping / nested burns, impulses inside and at the ends of burns, back-to-back burns,
+    non-chronological order, maneuvers dated before the orbit (already part of its state)"""
+    u = lambda a, b: q(rng.uniform(a, b) * period)
+    acc = lambda: [rng.uniform(-1e-3, 1e-3) for _ in range(3)]
+    dv = lambda: [rng.uniform(-0.5, 0.5) for _ in range(3)]
+    kind = rng.choice(["overlap2", "overlap3", "nested", "imp-in-burn", "back-to-back", "coincident", "disjoint", "mixed", "past"])
+    a = u(0.02, 0.5)
+    d = u(0.1, 0.5)
+    if kind == "overlap2":
+        mans = [("c", a, q(a + d), acc()), ("c", q(a + rng.uniform(0.1, 0.9) * d), q(a + d + u(0.05, 0.4)), acc())]
+    elif kind == "overlap3":
+        b = q(a + rng.uniform(0.2, 0.6) * d)
+        c = q(a + rng.uniform(0.6, 0.95) * d)
+        mans = [("c", a, q(a + d), acc()), ("c", b, q(b + d), acc()), ("c", c, q(c + d), acc())]
+    elif kind == "nested":
+        b = q(a + rng.uniform(0.1, 0.4) * d)
+        mans = [("c", a, q(a + d), acc()), ("c", b, q(b + rng.uniform(0.1, 0.5) * d), acc())]
+    elif kind == "imp-in-burn":
+        mans = [("c", a, q(a + d), acc()), ("i", q(a + rng.uniform(0.1, 0.9) * d), dv())]
+        if rng.random() < 0.5:
+            mans = [("i", q(a * rng.uniform(0.2, 0.9)), dv())] + mans + [("i", q(a + d + u(0.02, 0.3)), dv())]
+    elif kind == "back-to-back":
+        b = q(a + d)
+        mans = [("c", a, b, acc()), ("c", b, q(b + u(0.05, 0.4)), acc())]
+        if rng.random() < 0.5:
+            mans.insert(1, ("i", b, dv()))
+    elif kind == "coincident":
+        # vbar_linear pattern: impulse, burn starting at the same date, impulse at its end — and the other listing orders
+        b = q(a + d)
+        mans = [("i", a, dv()), ("c", a, b, acc()), ("i", b, dv())]
+        if rng.random() < 0.4:
+            mans = [mans[1], mans[0], mans[2]]
+    elif kind == "disjoint":
+        mans, c = [], a
+        for _ in range(rng.choice([1, 2, 3, 4])):
+            if rng.random() < 0.5:
+                mans.append(("i", c, dv()))
+                c = q(c + u(0.01, 0.3))
+            else:
+                e = q(c + u(0.02, 0.3))
+                mans.append(("c", c, e, acc()))
+                c = q(e + (u(0.01, 0.3) if rng.random() < 0.7 else 0.0))
+    elif kind == "mixed":
+        mans = []
+        for _ in range(rng.choice([2, 3, 4, 5])):
+            c = u(0.02, 1.2)
+            mans.append(("i", c, dv()) if rng.random() < 0.4 else ("c", c, q(c + u(0.02, 0.6)), acc()))
+        mans.sort(key=lambda m: m[1])
+    else:  # past: maneuvers dated before the orbit, a burn under way at the orbit's date
+        mans = [("i", -u(0.05, 0.5), dv()), ("c", -u(0.3, 0.6), -u(0.05, 0.2), acc()), ("c", -u(0.01, 0.2), u(0.05, 0.4), acc()), ("i", u(0.5, 0.9), dv())]
+        if rng.random() < 0.5:
+            mans.append(("i", 0.0, dv()))
+    if rng.random() < 0.25:
+        rng.shuffle(mans)
+    return kind, mans
+
+
+def interesting_dates(rng, mans, period):
+    """dates before / inside / exactly at the ends of / just beside / after every maneuver, and before the orbit's date"""
+    c = [0.0, q(-rng.uniform(0.05, 1.0) * period)]
+    last = 0.0
+    for m in mans:
+        ends = (m[1],) if m[0] == "i" else (m[1], m[2])
+        for e in ends:
+            c += [e, q(e + 0.001), q(e - 0.001)]
+            last = max(last, e)
+        if m[0] == "c":
+            c.append(q(rng.uniform(m[1], m[2])))
+    ev = sorted({e for m in mans for e in ((m[1],) if m[0] == "i" else (m[1], m[2]))})
+    for a, b in zip(ev[:-1], ev[1:]):
+        c.append(q(rng.uniform(a, b)))
+    c += [q(last + rng.uniform(0.01, 1.0) * period), q(rng.uniform(0.0, 2.0) * period)]
+    return c
+
+
+def perm_mans(mans):
+    p3 = lambda v: [v[1], -v[0], v[2]]
+    return [(m[0], m[1], p3(m[2])) if m[0] == "i" else (m[0], m[1], m[2], p3(m[3])) for m in mans]
+
+
+def seq_scale(x, mans, t0, t):
+    span = abs(t - t0) + 1.0
+    sv = max(abs(v) for v in x[3:]) + sum(max(abs(v) for v in m[2]) if m[0] == "i" else max(abs(v) for v in m[3]) * (m[2] - m[1]) for m in mans)
+    return max(abs(v) for v in x[:3]) + span * sv + 1.0, sv + 1e-3
+
+
+def check_seq(out, tag, ori, sma, x, mans, t0, t, got, n, kind):
+    """`got` = what the library returned (in orientation `ori`) for an orbit dated t0 with state x propagated to t"""
+    import numpy as np
+    xq = x if ori == "QSW" else [-x[1], x[0], x[2], -x[4], x[3], x[5]]
+    mq = mans if ori == "QSW" else [(m[0], m[1], [-m[2][1], m[2][0], m[2][2]]) if m[0] == "i" else (m[0], m[1], m[2], [-m[3][1], m[3][0], m[3][2]]) for m in mans]
+    ref = hill_reference(n, xq, mq, t0, t)
+    if ori == "TNW":
+        ref = np.array(P6(list(ref)))
+    sp, sv = seq_scale(x, mans, t0, t)
+    cls = classify(mans, t0, t)
+    out.count(key=(tag, ori, sma, t0, t, len(mans)), kind=f"{tag}-{cls}", shape=shape(mans), scenario=kind)
+    tol = np.array([1e-8 * sp + 1e-7] * 3 + [1e-8 * (sp * n + sv) + 1e-10] * 3)
+    if not np.all(np.abs(np.array(got) - ref) <= tol):
+        if cls in ("date-inside-burn-skips-later-listed-maneuver", "backward-across-maneuver"):
+            fam = "piecewise-" + cls
+        else:
+            fam = f"piecewise-{cls}-{shape(mans)}"
+        out.fail(fam, "the propagated state is not the solution of Hill's equations forced by the sum of the active thrusts and the impulses at their dates",
+                 {"check": tag, "ori": ori, "sma": sma, "x": x, "mans": mans, "t0": t0, "t": t}, observed=[float(v) for v in got], expected=[float(v) for v in ref])
+        return False
+    return True
+
+
+def piecewise(out, rng, N):
+    """propagate() against the independent integration of Hill's equations: every list shape, every kind of date, one leg from the
+    initial orbit and a second leg from the returned orbit (which still carries the list) forwards and backwards; superposition"""
+    import numpy as np
+    from beyond.dates import timedelta
+    for _ in range(N):
+        sma, period, x, _t = gen_case(rng)
+        ori = rng.choice(["QSW", "TNW"])
+        kind, mans = gen_sequence(rng, period)
+        orb, prop, d0 = make(ori, sma, x, mans)
+        n = float(prop.n)
+        dates = interesting_dates(rng, mans, period)
+        for t in rng.sample(dates, min(4, len(dates))):
+            got = np.array(orb.propagate(timedelta(seconds=t)))
+            ok = check_seq(out, "one-leg", ori, sma, x, mans, 0.0, t, got, n, kind)
+            if ok and len(mans) >= 2 and rng.random() < 0.3:
+                # superposition: the effect of the list is the sum of the effects of its members
+                free = np.array(make(ori, sma, x)[0].propagate(timedelta(seconds=t)))
+                parts = sum(np.array(make(ori, sma, x, [m])[0].propagate(timedelta(seconds=t))) - free for m in mans)
+                sp, sv = seq_scale(x, mans, 0.0, t)
+                cls = classify(mans, 0.0, t)
+                out.count(key=("superposition", ori, sma, t), kind="superposition-" + cls)
+                if not np.allclose(got - free, parts, rtol=0, atol=1e-8 * sp + 1e-7):
+                    out.fail(f"superposition-{cls}-{shape(mans)}", "state with all maneuvers differs from the sum of the single-maneuver effects",
+                             {"ori": ori, "sma": sma, "x": x, "mans": mans, "t": t}, observed=list(map(float, got - free)), expected=list(map(float, parts)))
+        # second leg from a returned orbit: its date may lie inside / after any maneuver; target before or after it
+        t1, t2 = rng.sample(dates, 2)
+        if t1 < 0:
+            t1, t2 = t2, t1
+        if t1 > 0:
+            mid = orb.propagate(timedelta(seconds=t1))
+            xm = [float(v) for v in mid]
+            got = np.array(mid.propagate(timedelta(seconds=q(t2 - t1))))
+            check_seq(out, "second-leg", ori, sma, xm, mans, t1, t2, got, n, kind)
+
+
+def exact_relative(n, R, s0, T, steps=1500):
+    """RK4 integration of the EXACT two-body relative dynamics in the target's rotating QSW frame (target on a circular orbit of radius R,
+    mu = n^2 R^3): acceleration = Coriolis (2 n vy, -2 n vx, 0) + relAcc (centrifugal - gravity) — the field whose linearisation at the
+    target is proved to be Hill's right-hand side in Props/C16Lin.lean (relAcc_linearisation)"""
+    import numpy as np
+    mu = n * n * R ** 3
+
+    def f(s):
+        x, y, z, vx, vy, vz = s
+        r3 = ((R + x) ** 2 + y * y + z * z) ** 1.5
+        return np.array([vx, vy, vz,
+                         2 * n * vy + n * n * (R + x) - mu * (R + x) / r3,
+                         -2 * n * vx + n * n * y - mu * y / r3,
+                         -mu * z / r3])
+    s = np.array(s0, dtype=float)
+    h = T / steps
+    for _ in range(steps):
+        k1 = f(s); k2 = f(s + h / 2 * k1); k3 = f(s + h / 2 * k2); k4 = f(s + h * k3)
+        s = s + h / 6 * (k1 + 2 * k2 + 2 * k3 + k4)
+    return s
+
+
+def second_order(out, rng, N):
+    """for small separations the Clohessy-Wiltshire state agrees with the true relative motion of two Keplerian orbits to second order in
+    the separation: halving the separation divides the discrepancy by ~4 (fitted exponent >= 1.8), and the discrepancy is O(sep^2 / R)"""
+    import numpy as np
+    from beyond.dates import timedelta
+    for _ in range(N):
+        sma = rng.choice([6.7e6, 7.2e6, 2.66e7, 4.2164e7])
+        prop = make("QSW", sma, [0] * 6)[1]
+        n = float(prop.n)
+        period = 2 * math.pi / n
+        T = q(rng.uniform(0.1, 0.5) * period)
+        u = np.array([rng.uniform(-1, 1) for _ in range(3)]); u /= np.linalg.norm(u)
+        w = np.array([rng.uniform(-1, 1) for _ in range(3)]); w /= np.linalg.norm(w)
+        seps = [sma * 3e-4, sma * 1.5e-4, sma * 0.75e-4]       # 2 km, 1 km, 0.5 km in LEO
+        errs = []
+        for d in seps:
+            x0 = list(d * u) + list(d * n * w)
+            cw = np.array(make("QSW", sma, x0)[0].propagate(timedelta(seconds=T)))
+            ex = exact_relative(n, sma, x0, T)
+            errs.append(float(np.linalg.norm(cw[:3] - ex[:3])))
+        expo = [math.log2(errs[i] / errs[i + 1]) if errs[i + 1] > 0 else 2.0 for i in range(2)]
+        out.count(key=("second-order", sma, T), kind="second-order-agreement")
+        if min(expo) < 1.8 or errs[0] > 300 * seps[0] ** 2 / sma:
+            out.fail("second-order-agreement", "discrepancy with the exact relative two-body motion does not shrink as separation squared",
+                     {"sma": sma, "T": T, "direction": list(map(float, u)), "velocity_direction": list(map(float, w)), "separations": seps},
+                     observed={"errors_m": errs, "exponents": expo}, expected={"exponents": ">= 1.8", "errors_m": f"<= {300 * seps[0] ** 2 / sma:.3g}"})
 
 
 def helpers(out, rng, N):
@@ -419,8 +1014,20 @@ def vbar(out, rng, N):
 
 
 def replay(f):
-    out = Outcome()
-    import random
-    # re-run the oracle family on the recorded input is family-specific; the generic path re-runs a short oracle sweep
+    import numpy as np
+    from beyond.dates import timedelta
+    fam, inp = f["family"], f["input"]
+    if fam.startswith("piecewise-") and isinstance(inp, dict) and "mans" in inp:
+        # re-run the recorded (list, orbit date, target date) on the real propagator against the independent integration
+        out = Outcome()
+        mans = [tuple(m) for m in inp["mans"]]
+        orb, prop, d0 = make(inp["ori"], inp["sma"], inp["x"], mans, t0=inp["t0"])
+        got = np.array(orb.propagate(timedelta(seconds=q(inp["t"] - inp["t0"]))))
+        check_seq(out, inp.get("check", "one-leg"), inp["ori"], inp["sma"], inp["x"], mans, inp["t0"], inp["t"], got, float(prop.n), "replay")
+        return out
+    # other families: a short oracle sweep (failing inputs that belong to an open known finding do not count as a reproduction)
     ctx = core.Ctx(ID, "quick", 0)
-    return oracle(ctx, False)
+    out = oracle(ctx, False)
+    known = core.load_known()
+    out.failures = [x for x in out.failures if core.match_known(ID, x, known) is None]
+    return out
